@@ -8,7 +8,8 @@ NAME = 'c07_payload'
 PAY = 'src/rpm/payload.rs'
 IORES = (re.compile(r'io::Result<([^{]+?)>\s*(?=/\*@SPEC@\*/|\{)'), r'Result<\1, Error> ', None, 'R4-io::Result')
 
-READ_PREFIX = (re.compile(r'\.read\(&mut ([A-Za-z_][A-Za-z0-9_]*)\[\.\.([A-Za-z_][A-Za-z0-9_]*)\]\)'), r'.read_limited(&mut \1, \2)', None, "R17'-read into a prefix slice")
+READ_PREFIX = (re.compile(r'\.read\(&mut ([A-Za-z_][A-Za-z0-9_]*)\[\.\.([A-Za-z_][A-Za-z0-9_]*)\]\)'),
+               lambda m: '.read_limited(%s, %s)' % (mut_ref(m, m.group(1)), m.group(2)), None, "R17'-read into a prefix slice")
 
 PARTS = [Prelude('head.rs'), Raw('global size_of usize == 8;   // A-64BIT: the checks assume a 64-bit target\n'),
          Prelude('serspec.rs')] + io_head() + [
@@ -128,7 +129,7 @@ impl<R: VReadExt> Reader<R> {
     Fn(PAY, 'read', impl='impl<R: Read> Read for Reader<R>',
        subs=[ret(), ('fn read(', 'pub fn read(', 1, 'R10-trait-impl-as-inherent-fn'),
              ('(buf.len() as u64).min(remaining) as usize', 'min_u64(buf.len() as u64, remaining) as usize', None, 'R12-Ord::min'),
-             ('self.inner.read(&mut buf[..limit])?', 'self.inner.read_limited(buf, limit)?', None, "R17'-read into a prefix slice"), READ_PREFIX],
+             READ_PREFIX],
        spec='''    requires old(self).bytes_read <= old(self).file_size,
     ensures
         final(self).file_size == old(self).file_size,
